@@ -8,6 +8,8 @@ import M3d.Lemmas.RectSetHist
 import M3d.Lemmas.RectSetProg
 import M3d.Lemmas.SmoothSolid
 import M3d.Lemmas.SolidExpr
+import M3d.Lemmas.SmoothNaN
+import M3d.Lemmas.SmoothNaNFar
 /-!
 # C04 — solid combinators implement exact, order-independent set algebra
 
@@ -677,6 +679,50 @@ theorem smoothV2_perm (n : Nat) (sqrt abs : K → K) (radius : K) {es₁ es₂ :
   unfold smoothJoinV2
   simp only [hloop]
 
+/-- **Parallel normals (concentric or duplicated operands): no fillet.**  If every two operands report unit
+normals that are equal or opposite at the point (`|n_a · n_b| = 1`: concentric spheres or circles, the same
+operand listed twice, parallel faces) and there are at least two operands, the fillet radius
+`radius·sqrt(1 − cos²)` is `radius·sqrt 0 = 0` and `SmoothJoinV2` answers exactly like the plain union, for
+every radius, whatever the distances — it adds no point at all.  (For one operand see `smoothV2_single`.)
+This is what exact arithmetic gives on the inputs where IEEE doubles produce `cos = 1.0000000000000002` and
+a NaN radius; `smoothV2_unordered_radius_eq_union` below shows the closure gives the same answer there. -/
+theorem smoothV2_parallel_eq_union (n : Nat) (sqrt abs : K → K) (radius : K) (es : List (K × Pt K))
+    (hs : sqrt 0 = 0) (hlen : 2 ≤ es.length)
+    (hpar : ∀ a ∈ es, ∀ b ∈ es, abs (dotN n a.2 b.2) = 1) :
+    smoothJoinV2 n sqrt abs radius es = es.any (fun e => decide (0 < e.1)) := by
+  rw [smoothJoinV2_eq_slots, smoothV2Slots_eq]
+  cases hany : es.any (fun e => decide (0 < e.1))
+  · simp only [Bool.false_eq_true, if_false]
+    have hle : ∀ e ∈ es, e.1 ≤ 0 := by
+      intro e he
+      have := List.any_eq_false.mp hany e he
+      simpa using this
+    match es, hlen with
+    | a :: b :: rest, _ =>
+      have hm := stepFold_mem_two (α := K) (E := DN K) Prod.fst ((none, fun _ => 0), (none, fun _ => 0))
+        ((some a.1, a.2) : DN K) ((some b.1, b.2) : DN K) (rest.map fun e => (some e.1, e.2))
+      have hm' : ∀ x : DN K, x ∈ ((some a.1, a.2) : DN K) :: ((some b.1, b.2) : DN K) ::
+            (rest.map fun e => ((some e.1, e.2) : DN K)) →
+          ∃ e ∈ a :: b :: rest, x = (some e.1, e.2) := by
+        intro x hx
+        have hx' : x ∈ (a :: b :: rest).map (fun e => ((some e.1, e.2) : DN K)) := by simpa using hx
+        obtain ⟨e, he, rfl⟩ := List.mem_map.mp hx'
+        exact ⟨e, he, rfl⟩
+      simp only [List.map_cons]
+      obtain ⟨e0, he0, h0⟩ := hm' _ hm.1
+      obtain ⟨e1, he1, h1⟩ := hm' _ hm.2
+      rw [h0, h1]
+      have hr0 : smoothV2Radius n sqrt abs radius ((some e0.1, e0.2) : DN K) (some e1.1, e1.2) = 0 := by
+        simp only [smoothV2Radius, hpar e0 he0 e1 he1]
+        rw [show (1 : K) - 1 * 1 = 0 by ring, hs, mul_zero]
+      rw [hr0]
+      have hz : ∀ c : K, c ≤ 0 → clampAdd (some c) (0 : K) = 0 := by
+        intro c hc; simp only [clampAdd]; split_ifs with h
+        · exfalso; linarith
+        · rfl
+      simp [smoothTest, hz _ (hle e0 he0), hz _ (hle e1 he1)]
+  · simp
+
 /-! ### The smooth joins as solids: bounds wrapper + closure, asked at many points -/
 
 /-- **`SmoothJoin(radius, sdfs...)` as a solid computes its specification at every point**: inside iff the
@@ -831,4 +877,149 @@ theorem legacy_single_outset :
     ∃ (r d : Int), legacySmoothJoin r [d] ≠ decide (0 < d) := ⟨2, -1, by decide⟩
 
 end Smooth
+
+/-! ### `SmoothJoinV2` when the fillet radius is not a number (IEEE: `cos = 1.0000000000000002`) -/
+section SmoothNaN
+open M3d.SolidAlg
+
+/-- **An unordered fillet radius adds nothing** — for EVERY scalar structure (no algebraic law is used, so this
+holds for IEEE doubles with their NaN as it does for a field): if the radius `r = radius·sqrt(1 − cos²)` the
+closure computes from the two slots its loop ends with is *unordered* (`r·r < y` is false for every `y`, which is
+what a NaN does), `SmoothJoinV2` answers exactly like the plain union: the final statement is the positive test
+`d1*d1 + d2*d2 > r*r`, which an unordered `r` fails.  The Go closure is in this situation whenever the two
+nearest operands report bit-identical unit normals `n` whose self-dot rounds to `1.0000000000000002`
+(`1 − cos²` is then negative and `math.Sqrt` returns NaN): concentric spheres, duplicated operands.  A rewrite
+of the final test into the negated form `!(d1*d1 + d2*d2 <= r*r)` answers `true` there
+(`negated_test_differs_at_nan`), i.e. contains points arbitrarily far from every operand. -/
+theorem smoothV2_unordered_radius_eq_union {α : Type} [LE α] [DecidableLE α] [LT α] [DecidableLT α]
+    [OfNat α 0] [OfNat α 1] [Add α] [Sub α] [Mul α]
+    (n : Nat) (sqrt abs : α → α) (radius : α) (es : List (α × Pt α))
+    (hnan : ∀ c0 c1, smoothV2Slots es = some (c0, c1) → Unordered (smoothV2Radius n sqrt abs radius c0 c1)) :
+    smoothJoinV2 n sqrt abs radius es = es.any (fun e => decide (0 < e.1)) := by
+  rw [smoothJoinV2_eq_slots]
+  have hs := smoothV2Slots_eq es
+  cases hany : es.any (fun e => decide (0 < e.1))
+  · rw [hany] at hs
+    simp only [Bool.false_eq_true, if_false] at hs
+    rw [hs]
+    exact smoothTest_unordered _ _ _ (hnan _ _ hs)
+  · rw [hany] at hs
+    simp only [if_true] at hs
+    rw [hs]
+
+/-- The same in the scalar with a NaN over an ordered field (`NF K`: arithmetic propagates NaN, comparisons with
+NaN are false, `sqrt` of a negative number is NaN): whenever the dot product of the two normals the loop ends
+with exceeds 1 in absolute value — by however little — `SmoothJoinV2` is the plain union. -/
+theorem smoothV2_cos_above_one_eq_union {K : Type} [Field K] [LinearOrder K] [IsStrictOrderedRing K]
+    (n : Nat) (f : K → K) (radius : NF K) (es : List (NF K × Pt (NF K)))
+    (hcos : ∀ c0 c1, smoothV2Slots es = some (c0, c1) →
+      ∃ γ : K, dotN n c0.2 c1.2 = NF.of γ ∧ 1 < γ * γ) :
+    smoothJoinV2 n (NF.sqrtWith f) NF.abs radius es = es.any (fun e => decide (0 < e.1)) := by
+  apply smoothV2_unordered_radius_eq_union
+  intro c0 c1 h
+  obtain ⟨γ, hd, hγ⟩ := hcos c0 c1 h
+  have hr : smoothV2Radius n (NF.sqrtWith f) NF.abs radius c0 c1 = NF.nan := by
+    simp only [smoothV2Radius, hd]
+    have habs : ∃ δ : K, NF.abs (NF.of γ) = NF.of δ ∧ δ * δ = γ * γ := by
+      by_cases hneg : γ < 0
+      · exact ⟨-γ, by simp [NF.abs, NF.of, hneg], by ring⟩
+      · exact ⟨γ, by simp [NF.abs, NF.of, hneg], rfl⟩
+    obtain ⟨δ, hδ, hδ2⟩ := habs
+    rw [hδ]
+    have h1 : (1 : NF K) - NF.of δ * NF.of δ = NF.of (1 - δ * δ) := rfl
+    rw [h1]
+    have h2 : NF.sqrtWith f (NF.of (1 - δ * δ)) = NF.nan := by
+      have : 1 - δ * δ < 0 := by rw [hδ2]; linarith
+      simp [NF.sqrtWith, NF.of, this]
+    rw [h2, NF.mul_nan]
+  rw [hr]
+  exact NF.unordered_nan
+
+/-- **Away from where operands meet, NaN included**: run the `SmoothJoinV2` closure in `NF K` — an ordered field
+with a NaN that arithmetic propagates, on which every comparison is false and where the square root of a negative
+number is NaN — on REAL distances and a real radius `R ≥ 0`, but with ARBITRARY normals (not unit, with a self-dot
+above 1, NaN components: anything).  If fewer than two operands are within `R` of the point, the answer is exactly
+the plain union.  (Either the fillet radius comes out as NaN and the positive final test fails, or it is a number
+`≤ R` and the loop and the test are the ones of the field, `smooth_far`.)  This removes the "no NaN / unit normals"
+assumption from `smoothV2_far` for the clause of the property that forbids adding far points. -/
+theorem smoothV2_far_nan {K : Type} [Field K] [LinearOrder K] [IsStrictOrderedRing K] (n : Nat) (f : K → K) (R : K) (es : List (K × Pt (NF K)))
+    (hr : 0 ≤ R) (hs0 : ∀ x, 0 ≤ f x) (hs1 : ∀ x, x ≤ 1 → f x ≤ 1)
+    (h : (es.map (·.1)).countP (fun d => decide (-R < d)) < 2) :
+    smoothJoinV2 n (NF.sqrtWith f) NF.abs (NF.of R) (es.map fun e => (NF.of e.1, e.2))
+      = es.any (fun e => decide (0 < e.1)) := by
+  have hanyN : (es.map fun e => ((NF.of e.1, e.2) : NF K × Pt (NF K))).any (fun e => decide (0 < e.1))
+      = es.any (fun e => decide (0 < e.1)) := by
+    rw [List.any_map]
+    congr 1
+    funext e
+    exact decide_eq_decide.mpr (NF.of_lt_of 0 e.1)
+  rw [smoothJoinV2_eq_slots, smoothV2Slots_eq, hanyN]
+  cases hany : es.any (fun e => decide (0 < e.1))
+  · simp only [Bool.false_eq_true, if_false]
+    -- the distances in the two slots are the two largest distances, embedded
+    have hkeys := stepFold_key (α := NF K) (E := DN (NF K)) Prod.fst 0
+      ((none, fun _ => 0), (none, fun _ => 0))
+      ((es.map fun e => ((NF.of e.1, e.2) : NF K × Pt (NF K))).map fun e => (some e.1, e.2))
+    have hl : (((es.map fun e => ((NF.of e.1, e.2) : NF K × Pt (NF K))).map
+          fun e => ((some e.1, e.2) : DN (NF K))).map Prod.fst)
+        = ((es.map (·.1)).map some).map (Option.map NF.of) := by
+      simp [List.map_map, Function.comp_def]
+    rw [hl] at hkeys
+    have ht := stepFold_map_of (K := K) 0 (none, none) ((es.map (·.1)).map some)
+    simp only [Prod.map, Option.map_none] at ht hkeys
+    rw [ht, stepFold_id_eq, foldl_ins1_eq_top2Spec] at hkeys
+    generalize stepFold (E := DN (NF K)) Prod.fst 0 ((none, fun _ => 0), (none, fun _ => 0))
+      ((es.map fun e => ((NF.of e.1, e.2) : NF K × Pt (NF K))).map fun e => (some e.1, e.2)) = st at hkeys
+    obtain ⟨c0, c1⟩ := st
+    simp only [Prod.mk.injEq] at hkeys
+    -- the radius: NaN or a number ≤ R
+    cases hv : (smoothV2Radius n (NF.sqrtWith f) NF.abs (NF.of R) c0 c1).v with
+    | none =>
+      have : smoothV2Radius n (NF.sqrtWith f) NF.abs (NF.of R) c0 c1 = NF.nan := by
+        cases hh : smoothV2Radius n (NF.sqrtWith f) NF.abs (NF.of R) c0 c1 with
+        | mk v => rw [hh] at hv; simp only at hv; rw [hv]; rfl
+      rw [this]
+      exact smoothTest_unordered _ _ _ NF.unordered_nan
+    | some ρ =>
+      have hρ : smoothV2Radius n (NF.sqrtWith f) NF.abs (NF.of R) c0 c1 = NF.of ρ := by
+        cases hh : smoothV2Radius n (NF.sqrtWith f) NF.abs (NF.of R) c0 c1 with
+        | mk v => rw [hh] at hv; simp only at hv; rw [hv]; rfl
+      have hle := radius_of_le n f R hr hs0 hs1 c0 c1 ρ hρ
+      rw [hρ, hkeys.1, hkeys.2, smoothTest_of]
+      -- in K: the plain smooth join with radius ρ ≤ R, far
+      have hfar : (es.map (·.1)).countP (fun d => decide (-ρ < d)) < 2 := by
+        refine lt_of_le_of_lt (List.countP_mono_left ?_) h
+        intro d _ hd
+        simp only [decide_eq_true_eq] at hd ⊢
+        linarith
+      have h1 := smooth_far ρ (es.map (·.1)) hfar
+      rw [smooth_eq_spec] at h1
+      unfold smoothSpec at h1
+      rw [List.any_map] at h1
+      have h2 : (es.any ((fun d => decide (0 < d)) ∘ fun x => x.1)) = false := hany
+      rw [h2] at h1
+      simpa using h1
+  · simp
+
+/-- Non-vacuity of `smoothV2_far_nan`: its hypotheses hold for the NaN-producing input of
+`negated_test_differs_at_nan` (two operands 5 radii away, `sqrt` the constant 0 function). -/
+example : ∃ (f : Rat → Rat) (R : Rat) (es : List (Rat × Pt (NF Rat))), 0 ≤ R ∧ (∀ x, 0 ≤ f x) ∧
+    (∀ x, x ≤ 1 → f x ≤ 1) ∧ (es.map (·.1)).countP (fun d => decide (-R < d)) < 2 ∧ es.length = 2 :=
+  ⟨fun _ => 0, 1, [(-5, fun _ => NF.nan), (-5, fun _ => NF.nan)], by norm_num, fun _ => le_refl _,
+    fun _ _ => by norm_num, by decide +kernel, rfl⟩
+
+/-- Non-vacuity, and the difference the final test's form makes: two copies of one operand at distance `-5` with
+the normal `(3/5 + 1/1024, 4/5)` (self-dot just above 1), radius 1: the closure answers `false` (= the plain
+union; the point is 5 radii away from both), the negated form of the test answers `true`. -/
+theorem negated_test_differs_at_nan :
+    let n : Pt (NF Rat) := fun i => if i = 0 then NF.of (3/5 + 1/1024) else NF.of (4/5)
+    let es : List (NF Rat × Pt (NF Rat)) := [(NF.of (-5), n), (NF.of (-5), n)]
+    smoothJoinV2 2 (NF.sqrtWith fun _ => 0) NF.abs (NF.of 1) es = false ∧
+    es.any (fun e => decide (0 < e.1)) = false ∧
+    (∃ c0 c1, smoothV2Slots es = some (c0, c1) ∧
+      smoothV2Radius 2 (NF.sqrtWith fun _ => 0) NF.abs (NF.of 1) c0 c1 = NF.nan ∧
+      smoothTestNegated c0.1 c1.1 (smoothV2Radius 2 (NF.sqrtWith fun _ => 0) NF.abs (NF.of 1) c0 c1) = true) := by
+  refine ⟨by decide +kernel, by decide +kernel, _, _, rfl, by decide +kernel, by decide +kernel⟩
+
+end SmoothNaN
 end M3d.C04
